@@ -3,6 +3,8 @@ from __future__ import annotations
 
 import ast
 import inspect
+import os
+import sys
 import time
 import traceback
 
@@ -286,13 +288,21 @@ class Contract:
                 eff(old, self_obj, a, result)
         ens_fn = getattr(self, "ensures_callee", None) or self.ensures
         ens = ens_fn(old, self_obj, a, result) if self_obj is not None else ens_fn(a, result)
+        _label = None
         try:
             for _label, fml in self._gen(ens):
                 st.assume(fml if isinstance(fml, (SBool, bool)) else mk_bool(V._zb(fml)))
         except PathEnd:
+            if os.environ.get("PYVC_DEBUG_DEAD"):
+                # (developer aid) which clause of the callee's postcondition was concretely false at this call site.  Often
+                # legitimate -- the engine forks over the alternatives of an optional result and the postcondition rules one
+                # out -- but a clause about the EVENTS of the callee's body (which a call site does not replay) is false at
+                # every call site and silently ends the caller's path: such clauses belong in `ensures` only, callers get
+                # `ensures_callee`.  The reach@after guard below catches the case where no path survives.
+                print(f"DEAD {ip.task.name} @{f.ref.qualname}:{(site or '').split(':')[-1]} clause={_label}", file=sys.stderr)
             # the callee's postcondition is concretely false here: the path ends -- the reachability guard of this call
             # site must not silently disappear with it (a caller could otherwise come back "ok" with no obligations left)
-            if check_pre:
+            if check_pre and not getattr(self, "never_returns", False):
                 st.cover_dead(f"{ip.task.name}/reach@after-{f.ref.qualname}:{(site or '').split(':')[-1]}")
             raise
         finally:
@@ -517,7 +527,7 @@ class VerifyTask:
         if m is None:
             return NotImplemented
         key = f"{m.relpath}:{cls.__qualname__}.__init__"
-        c = REGISTRY.get(key)
+        c = self.contract_for(key, None)  # (the task's `contract_overrides` first, as for function calls)
         if c is None or getattr(c, "constructs", None) is None:
             return NotImplemented
         obj = c.constructs.fresh(st, cls.__name__.lower())
@@ -528,12 +538,24 @@ class VerifyTask:
         pre = c.requires(obj, a) if c.self_shape is not None else c.requires(a)
         st.oblige(f"{self.name}/call-pre@{cls.__name__}():{(site or '').split(':')[-1]}", pre if isinstance(pre, (SBool, bool)) else mk_bool(V._zb(pre)), "call-pre")
         excs = list(c.raises)
-        if excs:
+        riff = getattr(c, "raises_iff", None)
+        if riff is not None:
+            # a constructor contract that says exactly when it raises (as Contract.apply does for functions):
+            # the caller follows the exceptional path only where one of the conditions holds
+            excs = list(riff)
+            conds = [riff[e](obj, a) if c.self_shape is not None else riff[e](a) for e in excs]
+            conds = [cnd if isinstance(cnd, (SBool, bool)) else mk_bool(V._zb(cnd)) for cnd in conds]
+            k = st.choose([both(*[neg(cnd) for cnd in conds])] + conds)
+            if k > 0:
+                raise PyRaise(SExc(excs[k - 1], ("<from constructor contract>",), site=f"callee {cls.__name__}"))
+        elif excs:
             k = st.fork(len(excs) + 1)
             if k > 0:
                 raise PyRaise(SExc(excs[k - 1], ("<from constructor contract>",), site=f"callee {cls.__name__}"))
-        for _l, fml in c._gen(c.ensures(None, obj, a, None)):
+        ens_fn = getattr(c, "ensures_callee", None) or c.ensures  # the callee-side form, as Contract.apply uses
+        for _l, fml in c._gen(ens_fn(None, obj, a, None)):
             st.assume(fml if isinstance(fml, (SBool, bool)) else mk_bool(V._zb(fml)))
+        st.cover(f"{self.name}/reach@after-{cls.__name__}():{(site or '').split(':')[-1]}")
         self.used_contracts.add(key)
         return obj
 
